@@ -1874,9 +1874,15 @@ REF_FCN REF_STATUS ref_interp_locate_node(REF_INTERP ref_interp, REF_INT node) {
   RAS(node <= ref_interp_max(ref_interp), "more nodes added, should move only");
 
   /* no starting guess, skip */
-  if (REF_EMPTY == ref_interp->cell[node] ||
-      ref_mpi_rank(ref_mpi) != ref_interp->part[node])
+  if (REF_EMPTY == ref_interp->cell[node]) return REF_SUCCESS;
+
+  /* donor cell lives on another part, so the walk can not start here.
+   * the stored cell and bary describe the previous position of node,
+   * forget them (mark moved) so ref_interp_locate_warm finds it again */
+  if (ref_mpi_rank(ref_mpi) != ref_interp->part[node]) {
+    ref_interp->cell[node] = REF_EMPTY;
     return REF_SUCCESS;
+  }
 
   ref_node = ref_grid_node(ref_interp_to_grid(ref_interp));
   ref_agents = ref_interp->ref_agents;
